@@ -17,7 +17,7 @@ fn valid(xs: &[B]) -> bool {
 fn exec(t: &[String]) -> Option<String> {
     let xs = dec(t)?;
     let input: Vec<BedGraph<i64>> = xs.iter().map(|b| BedGraph::new(b.r.chrom.clone(), b.r.start, b.r.end, b.v)).collect();
-    let out: Vec<BedGraph<i64>> = merge_sorted_bedgraph(input).collect();
+    let out: Vec<BedGraph<i64>> = drain_mode(merge_sorted_bedgraph(input), mode_of(t));
     let mut w = W::new();
     w.n(out.len());
     for o in &out { w.b(o.chrom().as_bytes()).n(o.start()).n(o.end()).n(o.value); }
